@@ -409,6 +409,29 @@ theorem wire_set_h1_perm_invariant (r r' : WReq) (host : Bytes) (f : Framing)
 
 /-! ### HTTP/2 and HTTP/3 -/
 
+/-- a refused request (`errRequestHeaderListSize`) is refused by the counting pass: the model has
+no encoder state, i.e. nothing of a refused request can reach a later header block — the lanes
+check exactly that on sequences of requests over one connection's HPACK encoder/decoder pair. -/
+theorem too_large_iff (fl : Flavor) (r : FReq) (fs : List (Bytes × Bytes)) (lim : Nat)
+    (hl : r.maxHeaderList = some lim) (h : fields fl r = .ok fs) : headerListSize fs ≤ lim := by
+  unfold fields at h
+  cases hh : fieldHost r with
+  | error e => simp [hh, bind, Except.bind] at h
+  | ok host =>
+    cases hp : fieldPath r host with
+    | error e => simp [hh, hp, bind, Except.bind] at h
+    | ok path =>
+      simp only [hh, hp, bind, Except.bind, hl] at h
+      split at h
+      · simp [throw, throwThe, MonadExceptOf.throw] at h
+      · simp only [pure, Except.pure] at h
+        split at h
+        · simp [throw, throwThe, MonadExceptOf.throw] at h
+        next hle =>
+          simp only [Except.ok.injEq] at h
+          subst h
+          exact Nat.le_of_not_lt hle
+
 /-- **wire_set (HTTP/2, HTTP/3)**: when a header block is produced, its fields are a permutation
 of the default-order pseudo fields followed by the default-order regular fields — neither order
 list adds, drops or duplicates a field. -/
@@ -427,8 +450,14 @@ theorem wire_set_h2 (fl : Flavor) (r : FReq) (fs : List (Bytes × Bytes))
       simp only [hh, hp, bind, Except.bind] at h
       split at h
       · simp [throw, throwThe, MonadExceptOf.throw] at h
-      · simp only [pure, Except.pure, Except.ok.injEq] at h
-        subst h
+      · have h' : fs = wireOf (pseudoKVs fl r host path ++ regularKVs fl r) := by
+          simp only [pure, Except.pure] at h
+          split at h
+          · split at h
+            · simp [throw, throwThe, MonadExceptOf.throw] at h
+            · simp only [Except.ok.injEq] at h; exact h.symm
+          · simp only [Except.ok.injEq] at h; exact h.symm
+        subst h'
         have e : ∀ a b : List KV, wireOf (a ++ b) = wireOf a ++ wireOf b := by
           intro a b; simp [wireOf]
         rw [e]
